@@ -10,6 +10,7 @@ CONSTANTS
   Forced = {}
   WorldSet <- W2
   AnchorChoice <- AnyAnchor
+  StoreChoice <- AnyStore
 INVARIANT TypeOK
 CONSTRAINT Mark
 POSTCONDITION Post
